@@ -1112,8 +1112,8 @@ impl Visitor<Diagnostic> for LibraryRenderer {
                 ActionQualifier::SD(time) => ("SD", Some(time)),
                 ActionQualifier::DS(time) => ("DS", Some(time)),
                 ActionQualifier::SL(time) => ("SL", Some(time)),
-                ActionQualifier::PR(time) => ("PR", Some(time)),
-                ActionQualifier::PF(time) => ("PF", Some(time)),
+                ActionQualifier::PR(time) => ("P1", Some(time)),
+                ActionQualifier::PF(time) => ("P0", Some(time)),
             };
             self.write_ws(name);
             if let Some(time) = time {
